@@ -289,7 +289,7 @@ func (h *H) classifierCases() {
 	for _, m := range []int{0, 255, 1024, 1025, 0x7fff, 0xffff} {
 		codes = append(codes, msCode(2, m, [][]byte{k, k2}, 2, 2, 0xAE), msCode(2, 1, [][]byte{k, k2}, 2, m, 0xAE))
 	}
-	for i := 0; i < h.run.N(60, 6000); i++ {
+	for i := 0; i < h.run.N(60, 4000); i++ {
 		c := h.randomCode()
 		if h.rng.Chance(40) {
 			nb := h.neighbours(c)
@@ -577,7 +577,7 @@ func (h *H) auxCases() {
 			h.auxCase(auxSpec{branch: l, nonce: uint32(h.rng.U64()), nibble: true, cut: 1 + h.rng.Intn(6), note: "nibble-shifted truncated"})
 		}
 	}
-	for i := 0; i < h.run.N(30, 3000); i++ {
+	for i := 0; i < h.run.N(30, 2000); i++ {
 		s := auxSpec{branch: h.rng.Intn(8), nonce: uint32(h.rng.U64()), suffix: h.rng.Intn(6), prefix: h.rng.Intn(8), cbBranch: h.rng.Intn(4), note: "random"}
 		if h.rng.Chance(15) {
 			s.branch = h.rng.Range(28, 40)
